@@ -273,6 +273,10 @@ func parent(ck *Check, tier string, seed int64, secs int, nw int) int {
 		}()
 	}
 	wg.Wait()
+	claimed := -1
+	if b, err := os.ReadFile(claim); err == nil {
+		claimed, _ = strconv.Atoi(strings.TrimSpace(string(b)))
+	}
 	total := &WorkerResult{Counters: map[string]int64{}}
 	toolErr := ""
 	for w, r := range results {
@@ -309,6 +313,17 @@ func parent(ck *Check, tier string, seed int64, secs int, nw int) int {
 		if r.Bounds != nil {
 			total.Bounds = r.Bounds
 		}
+	}
+	if total.Capped {
+		if total.Bounds == nil {
+			total.Bounds = map[string]any{}
+		}
+		cap := map[string]any{"internal_deadline_s": secs,
+			"meaning": "the deadline is a safety net: work units are handed out in a fixed order, every unit finished before the deadline was explored completely, the rest was not started (or was cut short and is not counted as covered); exhaustive is false"}
+		if claimed >= 0 {
+			cap["work_units_handed_out_before_the_deadline"] = claimed
+		}
+		total.Bounds["cap"] = cap
 	}
 	for _, g := range ck.GateCounts {
 		if total.Counters[g] == 0 && toolErr == "" && !total.Capped && len(total.Violations) == 0 {
